@@ -330,18 +330,23 @@ fn parse_diff_header_line(line: &str, git_diff_name: bool) -> (String, FileEvent
             let file = _parse_file_path(&line[offset..], git_diff_name);
             (file, FileEvent::Change)
         }
-        line if line.starts_with("rename from ") => {
-            (line[12..].to_string(), FileEvent::Rename) // "rename from ".len()
-        }
-        line if line.starts_with("rename to ") => {
-            (line[10..].to_string(), FileEvent::Rename) // "rename to ".len()
-        }
-        line if line.starts_with("copy from ") => {
-            (line[10..].to_string(), FileEvent::Copy) // "copy from ".len()
-        }
-        line if line.starts_with("copy to ") => {
-            (line[8..].to_string(), FileEvent::Copy) // "copy to ".len()
-        }
+        // As in _parse_file_path: git quotes paths containing non-ASCII characters etc.
+        line if line.starts_with("rename from ") => (
+            remove_surrounding_quotes(&line[12..]).to_string(), // "rename from ".len()
+            FileEvent::Rename,
+        ),
+        line if line.starts_with("rename to ") => (
+            remove_surrounding_quotes(&line[10..]).to_string(), // "rename to ".len()
+            FileEvent::Rename,
+        ),
+        line if line.starts_with("copy from ") => (
+            remove_surrounding_quotes(&line[10..]).to_string(), // "copy from ".len()
+            FileEvent::Copy,
+        ),
+        line if line.starts_with("copy to ") => (
+            remove_surrounding_quotes(&line[8..]).to_string(), // "copy to ".len()
+            FileEvent::Copy,
+        ),
         line if line.starts_with("new file mode ") => {
             (line[14..].to_string(), FileEvent::Added) // "new file mode ".len()
         }
